@@ -123,6 +123,7 @@ class Executor:
             self.st = State(dec)
             self.st.ex = self
             self._seq = 0
+            self._loop_pre = None
             self.n_paths += 1
             if self.n_paths > MAX_PATHS:
                 raise Undecided(f"more than {MAX_PATHS} paths in {self.finfo.qualname}")
@@ -160,7 +161,7 @@ class Executor:
         for i, p in enumerate(params):
             if i == 0 and fi.kind in ("method", "property", "setter") and fi.cls is not None:
                 cls = ct.self_class or fi.cls.qualname
-                args[p] = TObj(cls).fresh(st, "self")
+                args[p] = TObj(cls, schema_key=getattr(ct, "self_schema", None)).fresh(st, "self")
             elif i == 0 and fi.kind == "classmethod":
                 args[p] = ClassV(ct.self_class or fi.cls.qualname)
             elif p in ct.params:
@@ -175,9 +176,13 @@ class Executor:
             if args[p] is None and p in defaults and p not in ct.params:
                 frame.env[p] = args[p] = self.ev(defaults[p])
         if a.vararg and a.vararg.arg not in frame.env:
-            frame.env[a.vararg.arg] = ()
+            frame.env[a.vararg.arg] = args[a.vararg.arg] = ct.params[a.vararg.arg].fresh(st, a.vararg.arg) if a.vararg.arg in ct.params else ()
         if a.kwarg:
             frame.env[a.kwarg.arg] = st.alloc(DictObj.empty(st, TStr, TVal))
+        is_gen = any(isinstance(x, (ast.Yield, ast.YieldFrom)) for x in ast.walk(fi.node))
+        if is_gen:
+            # a generator under contract: its result is the list of the yielded values (hidden local `__yield__`)
+            frame.env["__yield__"] = self.coerce(self.models.make_list(self, []), ct.returns) if ct.returns is not None else self.models.make_list(self, [])
         old_heap = st.snapshot()
         c0 = C.Ctx(st, old_heap, st.heap, args)
         for label, f in ct.requires(c0):
@@ -194,10 +199,17 @@ class Executor:
             result = r.value
         except PyRaise as e:
             exc = e
+        if exc is None and is_gen:
+            result = frame.env["__yield__"]
         if exc is None and ct.returns is not None:
             result = self.coerce(result, ct.returns)
         c = C.Ctx(st, old_heap, st.heap, args, result)
         end = fi.node.end_lineno
+        if exc is None and getattr(ct, "ghost_final", None) is not None:
+            # ghost epilogue: witnesses for ghost variables, built from the final state (incl. locals)
+            c.locals = {n: C.View(st.heap, v, st)._wrap(v) for n, v in frame.env.items() if v is not UNBOUND}
+            for gname, term in ct.ghost_final(c).items():
+                st.heap.sym[gname] = term
         if exc is None:
             for label, f in ct.ensures(c):
                 self.check(f, "post", label, end)
@@ -339,6 +351,7 @@ class Executor:
         m = getattr(self, "st_" + type(node).__name__, None)
         if m is None:
             raise Unsupported(f"statement {type(node).__name__} at line {node.lineno}")
+        self.models._plug("before_stmt", self, node)  # ghost code of contracts (plug_caches): assigns ghost variables only
         m(node)
 
     def st_Expr(self, node):
@@ -405,6 +418,9 @@ class Executor:
             raise PyRaise(clsv.qualname, node.lineno)
         if isinstance(clsv, Ref) and isinstance(self.st.heap[clsv.id], ExcObj):
             raise PyRaise(self.st.heap[clsv.id].cls, node.lineno)
+        r = self.models._plug("raise_value", self, clsv, node.lineno)  # plugin raises PyRaise itself
+        if r is not NotImplemented:
+            return
         raise Unsupported(f"raise of {clsv!r}")
 
     def st_Delete(self, node):
@@ -528,6 +544,8 @@ class Executor:
         for n, v in fr.env.items():
             loc[n] = C.View(st.heap, v, st)._wrap(v)
         c.locals = loc
+        pre = getattr(self, "_loop_pre", None)
+        c.pre_locals = {n: C.View(pre[0], v, st)._wrap(v) for n, v in pre[1].items() if v is not UNBOUND} if pre is not None else {}
         c.seq = seq
         c.k = k
         return c
@@ -548,11 +566,21 @@ class Executor:
         for n, t in spec.local_types.items():
             if n in fr.env and fr.env[n] is not UNBOUND:
                 fr.env[n] = self.coerce(fr.env[n], t)
+        pre_env = dict(fr.env)
+        saved_pre = getattr(self, "_loop_pre", None)
+        self._loop_pre = (st.snapshot(), pre_env)  # state at loop entry, visible to the invariant as c.pre_locals
         # 1. initialisation
         for label, f in spec.inv(self._loop_ctx(seq, z3.IntVal(0)), z3.IntVal(0)):
             self.check(f, "inv_init", label, ln, aux=True)
         branch = st.choose(2)
-        pre_env = dict(fr.env)
+
+        def leave():
+            # cited lemmas (assumptions, listed in the evidence) instantiated on the state in which the loop is left
+            if getattr(spec, "lemmas", None) is not None:
+                for label, f in spec.lemmas(self._loop_ctx(seq, None)):
+                    self.assumed.add(f"cited lemma (assumed): {label}")
+                    st.assume(f)
+            self._loop_pre = saved_pre
 
         def havoc(k):
             for path in spec.modifies:
@@ -585,13 +613,18 @@ class Executor:
                     raise PathEnd
             snap = st.snapshot()
             mod = self.modifiable_ids([m for m in spec.modifies if not m.startswith(("heap:", "ghost:"))], fr.env, snap)
+            measure0 = spec.decreases(self._loop_ctx(seq, k), k) if spec.decreases is not None else None
             try:
                 self.exec_block(node.body)
             except ContinueSig:
                 pass
             except BreakSig:
                 # a break leaves the loop with the current state: continue after the loop
+                leave()
                 return
+            if measure0 is not None:
+                measure1 = spec.decreases(self._loop_ctx(seq, k + 1), k + 1)
+                self.check(z3.And(measure0 >= 0, measure1 < measure0), "termination", "measure-decreases", ln, aux=True)
             for label, f in spec.inv(self._loop_ctx(seq, k + 1), k + 1):
                 self.check(f, "inv_pres", label, ln, aux=True)
             for i, o in snap.items():
@@ -599,11 +632,13 @@ class Executor:
                     continue
                 for label, f in self.obj_equal_facts(o, st.heap[i], st.heap, snap):
                     self.check(f, "loop_frame", f"unchanged:{label}", ln, aux=True)
+            self.check_symheap_frame(snap, spec.modifies, "loop_frame", ln)
             raise PathEnd
         # 3. exit
         if is_for:
             zero = st.decide(seq.n == 0)
             if zero:
+                self._loop_pre = saved_pre
                 self.exec_block(node.orelse)
                 return
             havoc(seq.n)
@@ -614,10 +649,17 @@ class Executor:
         else:
             k = st.fresh_int("kexit")
             st.assume(k >= 0)
-            havoc(k)
+            first_bound_in_body = [n for n in assigned if pre_env.get(n, UNBOUND) is UNBOUND]
+            if first_bound_in_body and st.decide(k == 0):
+                # no iteration at all: nothing is havoc'ed, locals first assigned in the body stay unbound
+                # (reading one of them after the loop is an UnboundLocalError, as for a `for` over an empty sequence)
+                pass
+            else:
+                havoc(k)
             for label, f in spec.inv(self._loop_ctx(None, k), k):
                 st.assume(f)
             st.assume(z3.Not(self.truth_term(self.ev(node.test))))
+        leave()
         self.exec_block(node.orelse)
 
     def fresh_like(self, v, hint):
@@ -667,7 +709,7 @@ class Executor:
         st = self.st
         o = st.heap[ref.id]
         if isinstance(o, PyObj):
-            sch = C.class_schema(o.cls)
+            sch = C.class_schema(getattr(o, "schema_key", None) or o.cls)
             for f, t in sch.items():
                 if isinstance(t, TObj):
                     continue
@@ -759,6 +801,8 @@ class Executor:
 
     def set_attr(self, obj, attr, v, lineno):
         st = self.st
+        if self.models._plug("set_attr", self, obj, attr, v, lineno) is not NotImplemented:
+            return
         if isinstance(obj, Ref):
             o = st.heap[obj.id]
             if isinstance(o, PyObj):
@@ -766,7 +810,7 @@ class Executor:
                 if setter is not None:
                     self.call_repo(setter, [obj, v], {}, lineno, setter=True)
                     return
-                sch = C.class_schema(o.cls)
+                sch = C.class_schema(getattr(o, "schema_key", None) or o.cls)
                 if attr not in sch:
                     raise Unsupported(f"field {attr} of {o.cls} is not declared in the schema")
                 o.fields[attr] = self.coerce(v, sch[attr])
@@ -970,6 +1014,8 @@ class Executor:
             return self.models.unary(self, "neg", v, node.lineno)
         if isinstance(node.op, ast.UAdd):
             return v
+        if isinstance(node.op, ast.Invert):
+            return self.models.unary(self, "invert", v, node.lineno)
         raise Unsupported("unary op")
 
     def ev_BinOp(self, node):
@@ -1167,6 +1213,9 @@ class Executor:
                 if v is not NotImplemented:
                     return v
                 raise Unsupported(f"attribute {mattr} of {o.cls} (no field, method or class attribute; declare it in the schema)")
+            v = self.models._plug("ref_attr", self, obj, o, attr, lineno)
+            if v is not NotImplemented:
+                return v
             return BoundMethod(obj, None, attr)
         if isinstance(obj, SuperV):
             o = st.heap[obj.recv.id] if isinstance(obj.recv, Ref) else None
@@ -1230,6 +1279,14 @@ class Executor:
 
     def ev_Starred(self, node):
         raise Unsupported("starred expression")
+
+    def ev_Yield(self, node):
+        fr = self.frame
+        if "__yield__" not in fr.env:
+            raise Unsupported("yield outside a generator under contract")
+        v = self.ev(node.value) if node.value is not None else None
+        self.models.call_method(self, fr.env["__yield__"], "append", [v], {}, node.lineno)
+        return None
 
     def ev_NamedExpr(self, node):
         v = self.ev(node.value)
@@ -1316,7 +1373,9 @@ class Executor:
             sa, sb = z3.simplify(a), z3.simplify(b)
             if z3.is_int_value(sa) and z3.is_int_value(sb):
                 conc = list(range(sa.as_long(), sb.as_long()))
-            return IterV(n, lambda i: SV(a + i, TInt), concrete=conc)
+            it = IterV(n, lambda i: SV(a + i, TInt), concrete=conc)
+            it.elem_type = TInt  # list(range(..)) of a symbolic range
+            return it
         if isinstance(v, Ref):
             o = st.heap[v.id]
             if isinstance(o, ListObj):
@@ -1334,6 +1393,7 @@ class Executor:
                     conc = []
                 seq = IterV(n, lambda i: o.k.project(st, keys[i]), concrete=conc)
                 seq.keys, seq.pos = o.keys, o.pos
+                seq.source_dict = v
                 return seq
             if isinstance(o, SetObj):
                 keys = st.fresh_const("senum", z3.ArraySort(z3.IntSort(), o.k.sort()))
@@ -1450,12 +1510,22 @@ class Executor:
         defaults = self._defaults(fi)
         bound = {}
         args = list(args)
+        star = None
         if any(isinstance(x, tuple) and len(x) == 2 and x[0] == "*" for x in args):
-            raise Unsupported("symbolic *args forwarding")
+            # f(p1, .., pn, *iterable) into `def f(p1, .., pn, *names)`: the vararg is the sequence of the iterable's elements
+            if a.vararg is None or len(args) != len(pos) + 1 or any(isinstance(x, tuple) and len(x) == 2 and x[0] == "*" for x in args[:-1]):
+                raise Unsupported("symbolic *args forwarding")
+            star = self.models.call_builtin(self, "tuple", [args[-1][1]], {}, lineno)
+            args = args[:-1]
+            if isinstance(star, tuple):
+                args.extend(star)
+                star = None
         for name, v in zip(pos, args):
             bound[name] = v
         extra = args[len(pos):]
-        if extra:
+        if star is not None:
+            bound[a.vararg.arg] = star
+        elif extra:
             if a.vararg is None:
                 raise PyRaise("TypeError", lineno)
             bound[a.vararg.arg] = tuple(extra)
@@ -1480,7 +1550,7 @@ class Executor:
         """Call of a repository function: callee contract, declared external, or inlining."""
         st = self.st
         ct = C.lookup(fi.qualname, setter or fi.kind == "setter")
-        if ct is not None:
+        if ct is not None and not ct.inline_ok:
             return self.apply_contract(ct, fi, args, kwargs, lineno)
         ext = C.lookup_external(fi.qualname)
         if ext is not None:
